@@ -140,6 +140,8 @@ fn prepare(work: &Path, inv: &Inv, sh: &Shared) -> Option<Prepared> {
         if inv.force {
             args.push("-f".into());
         }
+        // no source asset to derive a parent from: sign the rendition as a new creation
+        args.extend(["--create".into(), "digitalCapture".into()]);
         args.push("rend/seg_init.mp4".into());
         args.extend(["fragment".into(), "--fragments_glob".into(), "seg_[0-9].m4s".into()]);
         return Some(Prepared { args, roles, output: None });
@@ -329,6 +331,42 @@ fn role_of(rel: &Path, roles: &[(PathBuf, &'static str)]) -> &'static str {
     "other"
 }
 
+/// Cause-class tokens for witness signatures (the detailed mode / role / state stay in the class strings).
+fn mode_group(m: &str) -> &'static str {
+    match m {
+        "embed" | "remote" => "sign",
+        "sidecar" | "remote-sidecar" => "sign-sidecar",
+        "report" | "detailed" | "ingredient" => "folder",
+        "fragment" => "fragment",
+        _ => "readonly",
+    }
+}
+
+fn role_group(r: &str) -> &'static str {
+    match r {
+        "sidecar" | "sidecar-link-target" => "sidecar",
+        "output" | "output-link-target" | "output-folder" | "output-folder-content" => "output",
+        "input" => "input",
+        "home" => "home",
+        _ => "other",
+    }
+}
+
+fn state_group(s: &str) -> String {
+    match s {
+        "sidecar-existing-file" | "sidecar-symlink-to-file" | "sidecar-hardlink" => "existing-sidecar".into(),
+        "same-as-input" | "same-dotslash" | "same-symlink" | "same-hardlink" | "same-via-subdir-dotdot" => "output-is-input".into(),
+        x => x.to_string(),
+    }
+}
+
+fn effect_group(e: &str) -> &'static str {
+    match e {
+        "deleted" => "deleted",
+        _ => "overwritten",
+    }
+}
+
 fn stderr_class(s: &str) -> String {
     let s = s.trim();
     let line = s.lines().find(|l| l.starts_with("Error") || l.contains("rror")).or_else(|| s.lines().last()).unwrap_or("");
@@ -458,9 +496,9 @@ fn run_inv(tmp: &Path, idx: usize, inv: &Inv, sh: &Shared, keep: bool) -> Outcom
             role
         );
         if !inv.force {
-            o.violations.push((format!("{}|{}|{}|{}", inv.mode, role, inv.out_state, eff), what));
+            o.violations.push((format!("{}|{}|{}|{}", mode_group(&inv.mode), role_group(role), state_group(&inv.out_state), effect_group(eff)), what));
         } else if role == "other" || role == "home" || (role == "input" && !inv.out_state.starts_with("same") && inv.out_state != "parent-of-input") {
-            o.violations.push((format!("{}+force|{}|{}|{}", inv.mode, role, inv.out_state, eff), what));
+            o.violations.push((format!("{}+force|{}|{}|{}", mode_group(&inv.mode), role_group(role), state_group(&inv.out_state), effect_group(eff)), what));
         } else {
             o.unjudged.push(format!("force:{role}:{eff}"));
         }
@@ -469,7 +507,7 @@ fn run_inv(tmp: &Path, idx: usize, inv: &Inv, sh: &Shared, keep: bool) -> Outcom
     o.counters.push(("preexisting_entries_changed".into(), effects.len() as u64));
     // a crash of the tool is worth a finding of its own kind (not this property's oracle, but never silent)
     if exit_class.starts_with("crash") {
-        o.violations.push((format!("{}|tool|{}|crash", inv.mode, inv.out_state), format!("`c2patool {}` crashed: {}", prep.args.join(" "), stderr.lines().last().unwrap_or(""))));
+        o.violations.push((format!("{}|tool|{}|crash", mode_group(&inv.mode), state_group(&inv.out_state)), format!("`c2patool {}` crashed: {}", prep.args.join(" "), stderr.lines().last().unwrap_or(""))));
     }
     // Oracle B
     let mut readback = "n/a".to_string();
@@ -485,7 +523,7 @@ fn run_inv(tmp: &Path, idx: usize, inv: &Inv, sh: &Shared, keep: bool) -> Outcom
         };
         if readback != "valid" && readback != "trusted" {
             o.violations.push((
-                format!("{}|output|{}|readback-{}", inv.mode, inv.out_state, readback.split(':').next().unwrap_or("")),
+                format!("{}|output|{}|readback-{}", mode_group(&inv.mode), state_group(&inv.out_state), readback.split(':').next().unwrap_or("")),
                 format!("`c2patool {}` exited 0 and printed a report ({} bytes of stdout) but {} reads back as {readback} in the monitor process", prep.args.join(" "), stdout.len(), out.display()),
             ));
         }
